@@ -123,6 +123,13 @@ class TrackWorld(World):
                 "sorted_tracks": 0.9 if focus == "C17" else r.choice([0.2, 0.6, 0.9]),
                 "renew": r.choice([0.01, 0.05, 0.15])}
 
+    @classmethod
+    def deepen(cls, cfg, r):
+        cfg["nsteps"] = min(cfg["nsteps"] * 3, 360)
+        cfg["size_bias"] = "big"
+        cfg["sessions"] = 3
+        cfg["n_instants"] = r.choice([6, 12, 40])
+
     # ------------------------------------------------------------------- setup
     def setup(self):
         import tracklib  # noqa: F401
@@ -198,6 +205,8 @@ class TrackWorld(World):
             return r.choice([0, 1, 1, 2, 2, 3, 4])
         if b == "pow2":
             return r.choice([1, 2, 3, 4, 7, 8, 9, 15, 16, 17])
+        if b == "big":
+            return r.choice([17, 31, 32, 33, 40, 63, 64, 65])
         return r.randint(0, 17)
 
     def _gen_value(self, r, n):
